@@ -16,7 +16,7 @@ rows = []
 evbak = "/var/tmp/evidence.bak.%d" % os.getpid()
 shutil.copytree(os.path.join(V, "evidence"), evbak)
 for pid in sorted(os.listdir(root)):
-    if ids and pid not in ids:
+    if (ids and pid not in ids) or not os.path.isdir(os.path.join(root, pid)):
         continue
     for name in sorted(os.listdir(os.path.join(root, pid))):
         d = os.path.join(root, pid, name)
